@@ -37,6 +37,7 @@ INJECTIONS = ['success', 'malformed', 'bad_envelope', 'unknown_method', 'invalid
               'call_listener_exc@method', 'return_listener_fault@app', 'return_listener_exc@service',
               'function_fault', 'function_exc', 'unserialisable_return', 'genfunction_fault', 'genfunction_exc',
               'genfunction_late_fault', 'genfunction_late_exc',
+              'malformed_declared', 'malformed_charset', 'malformed_declared_other', 'malformed_badbytes', 'success_declared',
               'success_returns0', 'success_returns2', 'success_returns3', 'function_fault_returns2', 'return_listener_exc_returns2@method']
 LAYOUTS = ('app_only', 'all_levels', 'duplicates', 'diamond', 'late')
 INHERITED = ('service_base', 'service_grand', 'service_base2')
@@ -203,6 +204,27 @@ def request_for(kind, injection):
         if kind in ('httprpc', 'httprpc-json'):
             return None
         return dict(method='POST', path='/', qs='', body=M.malformed_body(kind), content_type='text/xml')
+    if inj.startswith('malformed_') or inj == 'success_declared':
+        # what real clients send: the transport names a character set (Content-Type; in_string_charset for ServerBase) and, for XML, the document
+        # starts with a declaration that names one too - the protocols read such requests on a path of their own
+        if kind in ('httprpc', 'httprpc-json'):
+            return None
+        xmlkind = kind in ('soap11', 'soap12', 'xml')
+        body = M.malformed_body(kind)
+        if inj == 'success_declared':
+            body = M.encode_request(kind, 'f', [('n', 7)])['body']
+        if inj == 'malformed_badbytes':
+            # well-formed but for one byte that is not UTF-8
+            good = M.encode_request(kind, 'f', [('n', 7)])['body']
+            if b'7' not in good or kind.startswith('msgpack'):
+                return None
+            body = good.replace(b'7', b'7\xff', 1)
+        if inj in ('malformed_declared', 'malformed_declared_other', 'success_declared'):
+            if not xmlkind:
+                return None
+            body = (b'<?xml version="1.0" encoding="%s"?>\n' % (b'ISO-8859-1' if inj == 'malformed_declared_other' else b'UTF-8')) + body
+        ct = {'soap12': 'application/soap+xml', 'json': 'application/json', 'yaml': 'text/yaml'}.get(kind, 'text/xml' if xmlkind else 'application/x-msgpack')
+        return dict(method='POST', path='/', qs='', body=body, content_type=ct + '; charset=utf-8', charset='utf-8')
     if inj == 'bad_envelope':
         if kind == 'soap11':
             return dict(method='POST', path='/', qs='', content_type='text/xml',
@@ -398,10 +420,10 @@ def run_case(R, kind, driver, layout, injection):
             R.skip('HttpRpc needs an HTTP transport')
             return
         if layout == 'late':
-            drive.drive_server(srv, req['body'])
+            drive.drive_server(srv, req['body'], req.get('charset'))
             app._vf_attach_late()
             del trace.seq[:]
-        out = drive.drive_server(srv, req['body'])
+        out = drive.drive_server(srv, req['body'], req.get('charset'))
         escaped = out.exc
         if escaped is None:
             fault_sent = out.error is not None
